@@ -46,6 +46,7 @@ pub fn main() {
             "pointer_text" => checks::group_pointer_text(tier, seed, only),
             "name_lookup" => checks::group_name_lookup(tier, seed, only),
             "regex" => checks::group_regex(tier, seed, only),
+            "custom" => checks::group_custom(tier, seed, only),
             "cmp_struct" => checks::group_cmp_struct(tier, seed, only),
             "arith" => checks::group_arith(tier, seed, only),
             _ => { eprintln!("unknown group {}", g); std::process::exit(2); }
